@@ -69,7 +69,7 @@ class P(Prop):
     MODULE = "C17"
     THEOREMS = ["C17_number_by_number", "C17_length_mismatch", "C17_slice_pointwise", "C17_falsified_by_one", "C17_abs_reflexive",
                 "C17_abs_of_equal", "C17_rel_of_eq", "C17_rel_reflexive", "C17_abs_symmetric", "C17_rel_symmetric", "C17_nan_never", "C17_example",
-                "C17_impl_pairs", "C17_impl_symmetric", "C17_impl_reflexive", "C17_impl_falsified_by_one", "C17_impl_of_eq", "C17_slice_symmetric", "C17_impl_example"]
+                "C17_impl_pairs", "C17_impl_symmetric", "C17_impl_reflexive", "C17_impl_falsified_by_one", "C17_impl_of_eq", "C17_slice_symmetric", "C17_slice_reflexive", "C17_slice_falsified_by_one", "C17_impl_example"]
     KERNELS = ["%s::%s" % (t, m) for t in TYPES for m in ("abs_diff_eq", "relative_eq")]
     RULE = ("all 112 abs_diff_eq / relative_eq impls (every polynomial, Log, IntOfLog, IntOfLogPoly4 and Segment of each) regenerated and "
             "proved number-by-number in Coq for all inputs, with the whole-value corollaries for every impl (pairwise form, symmetric, reflexive on "
